@@ -413,7 +413,7 @@ func Run(r *ev.Run) {
 	r.Assumptions = []string{
 		"crypto library replaced by the pure-Go gothemis stand-in (Secure Cell Seal / Secure Message / EC key contract)",
 		"library/service layer: column pipeline assembled like proxyFactory.New (hmac, old-container wrapper, poison recognizer BEFORE the decrypt/masking handler) and TranslatorService; delivery = return of OnColumn / of the translator operation; wire transport is judged by the proxy layer",
-		"recording callbacks registered in poison.NewCallbackStorage(); the stock Stop/ExecuteScript callbacks are not registered (they leave the process)",
+		"recording callbacks registered in poison.NewCallbackStorage(); the stock StopCallback is never registered (it exits the process); EmptyCallback and ExecuteScriptCallback (a sh script in scratch; Acra starts it and does not wait for it) are registered in front of the recorders in the script-callback phase only",
 		"a handle is Reset() after each rotation (a warm v1 handle serving stale rotated-key lists is C06's subject); Redis keystores not covered",
 		"translator: by design the poison check happens only after a failed decrypt, so a poison record preceded by an envelope the caller CAN decrypt is not demanded there",
 	}
